@@ -256,6 +256,11 @@ fn blocking_case<const N: usize>(id: String, mut rng: Rng, event_idx: bool, indi
             });
             c.step(format!("queue notify en={}", en as u8), format!("ok | {} | {}", if toks.is_empty() { "-".to_string() } else { toks.join(" ") }, l.priv_str()));
         }
+        // what the status register reads back is the device's business: it may raise DEVICE_NEEDS_RESET at
+        // any time and still complete what it was given — the request, once published, is the device's
+        // until its completion is consumed
+        let needs_reset = rng.chance(1, 5);
+        st.borrow_mut().status_or = if needs_reset { 0x40 } else { 0 };
         let flags_before = l.dev.avail_flags().ok();
         let nin = rng.below(3) as usize;
         let nout = if nin == 0 { 1 + rng.below(2) as usize } else { rng.below(3) as usize };
@@ -312,7 +317,12 @@ fn blocking_case<const N: usize>(id: String, mut rng: Rng, event_idx: bool, indi
         let evs = if all.is_empty() { "-".to_string() } else { all.join(" ") };
         let res = match r {
             Err(_) => "panic".to_string(),
-            Ok(Err(e)) => format!("err {:?}", e),
+            Ok(Err(e)) => {
+                if ctx.served {
+                    c.fail(format!("add_notify_wait_pop returned {:?} although the device completed the request{}: the chain it published is still outstanding and its buffers (the caller's, only borrowed for the call) are still shared with the device", e, if needs_reset { " (the status register read back DEVICE_NEEDS_RESET)" } else { "" }));
+                }
+                format!("err {:?}", e)
+            }
             Ok(Ok(len)) => {
                 l.added += 1;
                 l.popped += 1;
@@ -491,6 +501,23 @@ pub fn foreign_first_case<const N: usize>(id: String, mut rng: Rng, event_idx: b
     c.nontrivial = true;
     STORE.with(|s| *s.borrow_mut() = None);
     c
+}
+
+/// the blocking co-simulation on behalf of another check (C03/C04/C09: a published request stays the
+/// device's until its completion is consumed, whatever the status register reads back meanwhile)
+pub fn blocking_cases(ctx: &Ctx, prop: &str) -> Vec<Case> {
+    cq_queue::install_hooks();
+    virtio_drivers::verif_hooks::set_spin_hook(Some(on_spin));
+    let nb = ctx.tier.pick(200, 4000);
+    crate::runner::par_cases(ctx, prop, "blocking", nb, |i, id| {
+        let rng = ctx.case_rng("C05-blocking", i);
+        match i % 4 {
+            0 => blocking_case::<4>(id, rng, true, false),
+            1 => blocking_case::<4>(id, rng, false, false),
+            2 => blocking_case::<16>(id, rng, true, true),
+            _ => blocking_case::<1>(id, rng, i % 8 == 3, false),
+        }
+    })
 }
 
 pub fn foreign_first_cases(ctx: &Ctx, prop: &str) -> Vec<Case> {
